@@ -136,7 +136,7 @@ func TestC13(t *testing.T) {
 				c.c13Program(s, "examples", e, nBatch*2, nCLI*2, strings.Contains(e.Src, "{"))
 			}
 		})
-		n := 100
+		n := 250
 		if c.Thorough {
 			n = 1500
 		}
